@@ -38,6 +38,7 @@ pub fn strata(quick: bool) -> Vec<Stratum> {
         index_words: true,
         breaks: true,
         max_depth: 3,
+        wraps: vec![],
     };
     // S2: definition bodies (locals declared in branches / loops, recursion)
     let body = Grammar {
@@ -55,6 +56,7 @@ pub fn strata(quick: bool) -> Vec<Stratum> {
         index_words: false,
         breaks: true,
         max_depth: 3,
+        wraps: vec![],
     };
     let body_g0 = G { in_def: true, loops: vec![], flows: 1, locals: vec![], defs: vec![], vars: vec![], depth: 1 };
     // S3: skeletons — every nesting of compound constructs, tiny filler alphabet
@@ -73,6 +75,7 @@ pub fn strata(quick: bool) -> Vec<Stratum> {
         index_words: false,
         breaks: true,
         max_depth: 5,
+        wraps: vec![],
     };
     // S4: counted loops with I/J/K, break under if/case, zero-trip ranges, after-loop probes
     let counted = Grammar {
@@ -90,6 +93,7 @@ pub fn strata(quick: bool) -> Vec<Stratum> {
         index_words: true,
         breaks: true,
         max_depth: 4,
+        wraps: vec![],
     };
     // S5: definitions — redefinition, mutual use, nesting, variables
     let defs = Grammar {
@@ -107,6 +111,7 @@ pub fn strata(quick: bool) -> Vec<Stratum> {
         index_words: false,
         breaks: false,
         max_depth: 3,
+        wraps: vec![],
     };
     fn id(v: Vec<N>) -> Vec<N> {
         v
